@@ -34,6 +34,7 @@ type Obligation struct {
 	Func     string
 	Props    []string // properties of a tagged clause (nil: structural)
 	MustFail bool     // vacuity canary: must NOT be provable
+	Sample   bool     // thorough tier: also sent to cvc5 (seeded sample)
 	Query    string
 	Pos      string
 }
@@ -164,6 +165,36 @@ func (c *Ctx) typeAt(t types.Type, p []int) types.Type {
 		t = t.Underlying().(*types.Struct).Field(f).Type()
 	}
 	return t
+}
+
+// sortedCellKeys: deterministic order (the text of every query must not depend on Go's map iteration order).
+func sortedCellKeys(m map[cellKey]bool) []cellKey {
+	ks := make([]cellKey, 0, len(m))
+	for k := range m {
+		ks = append(ks, k)
+	}
+	sort.Slice(ks, func(i, j int) bool {
+		if ks[i].a != ks[j].a {
+			if ks[i].a.Pos() != ks[j].a.Pos() {
+				return ks[i].a.Pos() < ks[j].a.Pos()
+			}
+			if ks[i].a.Name() != ks[j].a.Name() {
+				return ks[i].a.Name() < ks[j].a.Name()
+			}
+			return fmt.Sprintf("%p", ks[i].a) < fmt.Sprintf("%p", ks[j].a)
+		}
+		return ks[i].path < ks[j].path
+	})
+	return ks
+}
+
+func sortedStrKeys(m map[string]bool) []string {
+	ks := make([]string, 0, len(m))
+	for k := range m {
+		ks = append(ks, k)
+	}
+	sort.Strings(ks)
+	return ks
 }
 
 func (s *State) hasCell(a *ssa.Alloc) bool {
@@ -1302,10 +1333,14 @@ func (fr *Frame) run(st0 *State) {
 			body := naturalLoop(b, isBack)
 			cells, keys := fr.modifiedIn(body)
 			for _, a := range cells {
+				mine := map[cellKey]bool{}
 				for k := range st.cells {
 					if k.a == a {
-						st.cells[k] = c.fresh("hv_"+a.Comment, c.sortOf(c.typeAtStr(a.Type().(*types.Pointer).Elem(), k.path)))
+						mine[k] = true
 					}
+				}
+				for _, k := range sortedCellKeys(mine) {
+					st.cells[k] = c.fresh("hv_"+a.Comment, c.sortOf(c.typeAtStr(a.Type().(*types.Pointer).Elem(), k.path)))
 				}
 			}
 			for _, key := range keys {
@@ -1334,7 +1369,7 @@ func (fr *Frame) run(st0 *State) {
 				}
 			}
 			var lm *loopMod
-			if fr.fc != nil && len(fr.fc.LoopMods[ord]) > 0 {
+			if fr.fc != nil && (len(fr.fc.LoopMods[ord]) > 0 || fr.fc.LoopModNone[ord]) {
 				lm = &loopMod{alloc: preAlloc}
 				lm.refs, lm.inner = fr.evalModMaps(fr.fc.LoopMods[ord], preState, fr.ghost, false)
 				for blk := range body {
@@ -1890,7 +1925,7 @@ func (fr *Frame) merge(ins []edge, b *ssa.BasicBlock) *State {
 			all[a] = true
 		}
 	}
-	for a := range all {
+	for _, a := range sortedCellKeys(all) {
 		same := true
 		first := ""
 		for i, e := range ins {
@@ -1923,7 +1958,7 @@ func (fr *Frame) merge(ins []edge, b *ssa.BasicBlock) *State {
 			keys[k] = true
 		}
 	}
-	for k := range keys {
+	for _, k := range sortedStrKeys(keys) {
 		same := true
 		first := ""
 		for i, e := range ins {
@@ -3205,7 +3240,12 @@ func (fr *Frame) checkCommutes(h *ssa.BasicBlock, ord int, st *State, isBack fun
 		}
 	}
 	baseAlloc := fr.allocTerm(base)
-	for k, v := range a12.cells {
+	a12keys := map[cellKey]bool{}
+	for k := range a12.cells {
+		a12keys[k] = true
+	}
+	for _, k := range sortedCellKeys(a12keys) {
+		v := a12.cells[k]
 		if body[k.a.Block()] {
 			continue // per-iteration locals
 		}
@@ -3240,7 +3280,7 @@ func (fr *Frame) checkCommutes(h *ssa.BasicBlock, ord int, st *State, isBack fun
 	for k := range b21.heap {
 		keys[k] = true
 	}
-	for k := range keys {
+	for _, k := range sortedStrKeys(keys) {
 		if strings.HasPrefix(k, "IT") || k == allocKey {
 			continue
 		}
